@@ -318,7 +318,8 @@ def crash_points(rng, cmds, tr, nmax, from_cmd=0, byte_cuts=True):
         pts.append((ci, e["idx"], 0, 3 if e["kind"] in ("create", "setlen", "unlink", "syncdata", "syncdir", "flush") else 1))
         if e["kind"] == "write" and byte_cuts:
             ln = e["len"]
-            ks = set([1, 3, 4, 6, 7, 8, ln - 1, ln // 2, rng.randrange(1, ln + 1), rng.randrange(1, ln + 1)])
+            kb = mrl.B - e["off"] % mrl.B        # tear exactly at the next block boundaries
+            ks = set([1, 3, 4, 6, 7, 8, ln - 1, ln // 2, rng.randrange(1, ln + 1), rng.randrange(1, ln + 1), kb, kb + mrl.B])
             for k in ks:
                 if 0 < k < ln:
                     pts.append((ci, e["idx"], k, 2))
@@ -1501,12 +1502,20 @@ class C11(TwoPass):
         # exactly this plan; C11_absorbed_* say what happens instead).  Only hang-freedom and the
         # model/implementation diff are judged for it.
         in_band_eof = (f[1] == "read" and f[4] == "UnexpectedEof")
+        # Plans are generated with an index below the number of calls a fault-free recovery makes, so the fault is
+        # always reached; a script that was cut down afterwards has lost that guarantee (the violation is therefore
+        # not shrinkable), and for read faults the trace itself says whether the failing call was made.
+        reached = True
+        if f[1] == "read":
+            reached = any(l.split()[2] == "read" and l.split()[-1] == "0" for l in events_of(tr[-1]))
         if "err=Hang" in out:
-            vs.append({"msg": "`%s`: open did not return within the deadline" % cmds[-2], "shape": "io-hang"})
+            vs.append({"msg": "`%s`: open did not return within the deadline" % cmds[-2], "shape": "io-hang", "shrinkable": False})
         elif in_band_eof:
             self.stats["in_band_eof_plans"] = self.stats.get("in_band_eof_plans", 0) + 1
+        elif not reached:
+            self.stats["fault_not_reached"] = self.stats.get("fault_not_reached", 0) + 1
         elif "err=Io:" not in out:
-            vs.append({"msg": "`%s`: open returned %r instead of an I/O error" % (cmds[-2], out), "shape": "io-swallowed"})
+            vs.append({"msg": "`%s`: open returned %r instead of an I/O error" % (cmds[-2], out), "shape": "io-swallowed", "shrinkable": False})
         return vs
 
 
@@ -1758,13 +1767,15 @@ class C18(PropBase):
     quick_cases = 40
     thorough_cases = 500
     rule = ("HistGen histories over 2-4 queues sharing WAL files (roll-over, truncation- and deletion-driven GC, restarts); for each queue q the projected history h|q "
-            "(calls addressed to q plus restarts and persists) is run as well; non-trivial/distinct as for C01")
+            "(calls addressed to q plus restarts and persists) is run as well; crash family: a crash cut inside a call addressed to another queue (torn writes, tears exactly at block "
+            "boundaries preferred), recovery, a continuation on the other queues and a second restart, against the projection with a clean restart in place of the crash; non-trivial/distinct as for C01")
     oracle_text = ("metamorphic, on the real crate: after every call of h addressed to q and after every restart, q's existence, records (positions, payload hashes) and next position, "
                    "and the logical outcome of q's calls (positions, eviction counts, errors) equal those of the corresponding call of h|q")
 
     def generate(self, n=None, tag="g"):
         cases = []
-        for i in range(n or self.ncases()):
+        total = n or self.ncases()
+        for i in range(total):
             rng = random.Random(self.rng.random())
             g = HistGen(rng, policy=rng.choice(self.policies), nqueues=rng.choice([2, 3, 4]), max_payload=50000)
             if i % 5 == 2:
@@ -1801,7 +1812,57 @@ class C18(PropBase):
             cases.append(("%s%d_full" % (tag, i), g.cmds))
             for k, tok in enumerate(g.names):
                 cases.append(("%s%d_p%d" % (tag, i, k), [c for c in g.cmds if addressed_to(c, tok)]))
+        cases.extend(self.crash_family(total, tag))
         return cases
+
+    def crash_family(self, n, tag):
+        """a crash in the middle of a call addressed to ANOTHER queue (flush-per-call policy, so every completed
+        call is durable): for every queue q other than the one in flight, the full history with the crash and
+        its recovery must show q exactly as the projection h|q does with a clean restart at that point -
+        also after a continuation and a second restart (a torn write left behind by the other queue's call
+        must not swallow what q writes next).  Two passes: the base history is run once to learn its trace."""
+        nb = max(3, n // 6)
+        bases = []
+        for i in range(nb):
+            rng = random.Random(self.rng.random())
+            g = HistGen(rng, policy="af", nqueues=rng.choice([2, 3]), max_payload=70000)
+            g.run(rng.randrange(6, 18), weights={"create": 9, "delete": 4, "append": 60, "truncate": 22, "persist": 0, "restart": 3})
+            bases.append(("%sc%d" % (tag, i), g.cmds, g, rng))
+        real = mrl.run_real([(b[0], b[1]) for b in bases], deadline_ms=self.deadline_ms())
+        out = []
+        for bid, cmds, g, rng in bases:
+            tr = real.get(bid, [])
+            if len(tr) < len(cmds):
+                continue
+            pts = [p for p in crash_points(rng, cmds, tr, 400) if p[0] < len(cmds) and split_cmd(cmds[p[0]])[0] in MUT]
+            # prefer torn writes, block-boundary tears first
+            def key(p):
+                return (0 if p[2] and p[2] % mrl.B in (mrl.B - 19, 0) else 1, rng.random())
+            torn = sorted([p for p in pts if p[2]], key=lambda p: (rng.random()))
+            evs = {e["idx"]: e for _, e in trace_events(tr)}
+            bb = [p for p in torn if (evs[p[1]]["off"] + p[2]) % mrl.B == 0]
+            chosen = (bb[:3] + torn[:2] + [p for p in pts if not p[2]][:1])[:4]
+            for (ci, cut, k) in chosen:
+                inflight = split_cmd(cmds[ci])[1]
+                others = [t for t in g.names if t != inflight]
+                if not others:
+                    continue
+                cont = []
+                for t in others[:2]:
+                    cont.append("append %s - 9:%d" % (t, 950 + len(cont)))
+                    cont.append("append %s - 120:%d" % (t, 960 + len(cont)))
+                full = cmds[:ci + 1] + ["crash %d %d" % (cut, k), "open af"] + cont + ["drop", "open af"]
+                cid = "%s_x%d_%d" % (bid, cut, k)
+                out.append((cid + "_full", full))
+                for kk, tok in enumerate(g.names):
+                    if tok == inflight:
+                        continue
+                    proj = [("drop" if c.startswith("crash ") else c) for c in full if addressed_to(c, tok)]
+                    out.append(("%s_p%d" % (cid, kk), proj))
+                self.stats["crash_isolation_cases"] = self.stats.get("crash_isolation_cases", 0) + 1
+                if k and (evs[cut]["off"] + k) % mrl.B == 0:
+                    self.stats["block_boundary_tears"] = self.stats.get("block_boundary_tears", 0) + 1
+        return out
 
     def run_pair(self, cases, consts, need_model=True):
         real, model, ann = PropBase.run_pair(self, cases, consts, need_model)
@@ -1823,14 +1884,14 @@ class C18(PropBase):
                 t = split_cmd(c)
                 if t[0] in MUT and t[1] not in names:
                     names.append(t[1])
-            k = 0
-            while "%s_p%d" % (gid, k) in cd:
+            for k in range(0, 8):
                 pid_ = "%s_p%d" % (gid, k)
+                if pid_ not in cd:
+                    continue
                 pc = cd[pid_]
                 pt = real.get(pid_, [])
                 # which queue is this projection about
                 toks_q = [split_cmd(c)[1] for c in pc if split_cmd(c)[0] in MUT]
-                k += 1
                 if not toks_q:
                     continue
                 tok = toks_q[0]
